@@ -3,7 +3,7 @@ import json, os
 import vlib
 
 
-def trace_inputs(run, hz, inputs, module="TraceStats", nproc=None, timeout=3000, also386=True, arch="amd64"):
+def trace_inputs(run, hz, inputs, module="TraceStats", nproc=None, timeout=3000, also386=True, arch="amd64", max386=1100000):
     if not inputs:
         return
     if also386:
@@ -16,7 +16,7 @@ def trace_inputs(run, hz, inputs, module="TraceStats", nproc=None, timeout=3000,
             ok386 = False
         run.extra["int32_platform_pass"] = bool(ok386)
         if ok386:
-            sub = [dict(i, id=i["id"] + 100000) for i in inputs if i["n"] <= 1100000]
+            sub = [dict(i, id=i["id"] + 100000) for i in inputs if i["n"] <= max386]
             if sub:
                 trace_inputs(run, hz386, sub, module=module, nproc=nproc, timeout=timeout, also386=False, arch="386")
     from concurrent.futures import ThreadPoolExecutor
